@@ -3,11 +3,25 @@ C04 — Terminal state is restored on every exit path.
 
 The start-up and shutdown functions are *interpreted from the lists regenerated from vaxis.go*
 (`Gen/Modes.lean`), composed with the writer model, and run on the mode terminal `Spec.ModeTerm`.
-`decide +kernel` evaluates the checkers on ALL 2^9 assignments of the guard variables
-(kittyKeyboard, sixels, unicodeCore, explicitWidth, colorThemeUpdates, inBandResize, osc176,
-synchronizedUpdate, disableMouse) × all four (cursorNext.visible, cursorLast.visible) combinations:
-a proof over the whole finite configuration space, not a sample.  A mode enabled under one guard
-and reset under another makes the corresponding chunk fail to compile.
+
+* **All run-time values.**  The interpreter produces *items*: tokens plus named holes for the kitty
+  keyboard flags, the queried user cursor style, the saved application id and the cursor the
+  application asked for (`Model.Lifecycle.interpS` never sees a value; `inst` fills the holes).  The
+  mode terminal is run on items with *symbols* for the value-carrying fields (`Lemmas.C04Sym`), and
+  `runS_sound` — proved for every value — says the symbolic run describes every concrete one.  The
+  prior value and the value the application sets are different symbols, so "restored" cannot hold
+  because two representatives happen to coincide; and since equal symbols give equal values
+  whatever the values are, the statements also cover the case where the user's value equals the
+  default or the application's value.
+* **All capability sets.**  `decide +kernel` evaluates the symbolic checkers on ALL 2^9 assignments
+  of the guard variables (kittyKeyboard, sixels, unicodeCore, explicitWidth, colorThemeUpdates,
+  inBandResize, osc176, synchronizedUpdate, disableMouse) × all four (cursorNext.visible,
+  cursorLast.visible) combinations, from a running state in which everything frames may change is
+  *unknown*.  A mode enabled under one guard and reset under another makes a chunk fail to compile.
+* **All sessions.**  Induction over the list of operations (`Lemmas.C04Session`): start-up, then any
+  number of frames, cursor requests, SetAppID calls and Suspend/Resume cycles, then shutdown at any
+  point — by Close, by the signal arm or by the panic handler of the input goroutine (both are
+  `Close`: `signal_path_is_close`, `panic_path_is_close`, over the skeleton regenerated from `openTty`).
 -/
 import VaxisModel.Props.C07
 import VaxisModel.Lemmas.C04Chunk00
@@ -26,80 +40,143 @@ import VaxisModel.Lemmas.C04Chunk12
 import VaxisModel.Lemmas.C04Chunk13
 import VaxisModel.Lemmas.C04Chunk14
 import VaxisModel.Lemmas.C04Chunk15
+import VaxisModel.Lemmas.C04Session
 
 namespace VaxisModel.Props.C04
 open VaxisModel.Lemmas.C04Check VaxisModel.Model.Lifecycle VaxisModel.Spec.ModeTerm
+open VaxisModel.Lemmas.C04Sym VaxisModel.Lemmas.C04SymCheck VaxisModel.Lemmas.C04Session VaxisModel.Lemmas.C04Interp
 
-private theorem chunk_sound (f : Nat → Bool → Bool → Bool) (lo hi : Nat) (h : chunkB f lo hi = true) :
-    ∀ m, lo ≤ m → m < hi → ∀ a b : Bool, f m a b = true := by
-  intro m h1 h2 a b
-  unfold chunkB at h
-  rw [List.all_eq_true] at h
-  have := h (m - lo) (by simp; omega)
-  have e : lo + (m - lo) = m := by omega
-  rw [e] at this
-  simp only [Bool.and_eq_true] at this
-  obtain ⟨⟨⟨x1, x2⟩, x3⟩, x4⟩ := this
-  cases a <;> cases b <;> assumption
+private theorem all_checked (m : Nat) (hm : m < 512) : allB m = true := by
+  rcases (by omega : (0 ≤ m ∧ m < 32) ∨ (32 ≤ m ∧ m < 64) ∨ (64 ≤ m ∧ m < 96) ∨ (96 ≤ m ∧ m < 128) ∨ (128 ≤ m ∧ m < 160) ∨ (160 ≤ m ∧ m < 192) ∨ (192 ≤ m ∧ m < 224) ∨ (224 ≤ m ∧ m < 256) ∨ (256 ≤ m ∧ m < 288) ∨ (288 ≤ m ∧ m < 320) ∨ (320 ≤ m ∧ m < 352) ∨ (352 ≤ m ∧ m < 384) ∨ (384 ≤ m ∧ m < 416) ∨ (416 ≤ m ∧ m < 448) ∨ (448 ≤ m ∧ m < 480) ∨ (480 ≤ m ∧ m < 512)) with h | h | h | h | h | h | h | h | h | h | h | h | h | h | h | h
+  · exact chunk_sound 0 32 sym_chunk00 m (by omega) (by omega)
+  · exact chunk_sound 32 64 sym_chunk01 m (by omega) (by omega)
+  · exact chunk_sound 64 96 sym_chunk02 m (by omega) (by omega)
+  · exact chunk_sound 96 128 sym_chunk03 m (by omega) (by omega)
+  · exact chunk_sound 128 160 sym_chunk04 m (by omega) (by omega)
+  · exact chunk_sound 160 192 sym_chunk05 m (by omega) (by omega)
+  · exact chunk_sound 192 224 sym_chunk06 m (by omega) (by omega)
+  · exact chunk_sound 224 256 sym_chunk07 m (by omega) (by omega)
+  · exact chunk_sound 256 288 sym_chunk08 m (by omega) (by omega)
+  · exact chunk_sound 288 320 sym_chunk09 m (by omega) (by omega)
+  · exact chunk_sound 320 352 sym_chunk10 m (by omega) (by omega)
+  · exact chunk_sound 352 384 sym_chunk11 m (by omega) (by omega)
+  · exact chunk_sound 384 416 sym_chunk12 m (by omega) (by omega)
+  · exact chunk_sound 416 448 sym_chunk13 m (by omega) (by omega)
+  · exact chunk_sound 448 480 sym_chunk14 m (by omega) (by omega)
+  · exact chunk_sound 480 512 sym_chunk15 m (by omega) (by omega)
 
-/-- **Balanced.** For every capability/option assignment and every cursor state at shutdown:
-    start-up, then frames (which may change pointer shape, cursor shape and visibility), then
-    `Close` returns every mode of the property's list to its prior value, with the cursor
-    visible, the primary screen active, the pen reset, no hyperlink open, the kitty keyboard
-    stack depth restored, keypad numeric, application id and cursor shape restored and
-    synchronized-update balanced. -/
-theorem balanced (m : Nat) (hm : m < 512) (cnv clv : Bool) : balancedB m cnv clv = true := by
-    rcases (by omega : (0 ≤ m ∧ m < 32) ∨ (32 ≤ m ∧ m < 64) ∨ (64 ≤ m ∧ m < 96) ∨ (96 ≤ m ∧ m < 128) ∨ (128 ≤ m ∧ m < 160) ∨ (160 ≤ m ∧ m < 192) ∨ (192 ≤ m ∧ m < 224) ∨ (224 ≤ m ∧ m < 256) ∨ (256 ≤ m ∧ m < 288) ∨ (288 ≤ m ∧ m < 320) ∨ (320 ≤ m ∧ m < 352) ∨ (352 ≤ m ∧ m < 384) ∨ (384 ≤ m ∧ m < 416) ∨ (416 ≤ m ∧ m < 448) ∨ (448 ≤ m ∧ m < 480) ∨ (480 ≤ m ∧ m < 512)) with h | h | h | h | h | h | h | h | h | h | h | h | h | h | h | h
-    · exact chunk_sound balancedB 0 32 balanced_chunk00 m (by omega) (by omega) cnv clv
-    · exact chunk_sound balancedB 32 64 balanced_chunk01 m (by omega) (by omega) cnv clv
-    · exact chunk_sound balancedB 64 96 balanced_chunk02 m (by omega) (by omega) cnv clv
-    · exact chunk_sound balancedB 96 128 balanced_chunk03 m (by omega) (by omega) cnv clv
-    · exact chunk_sound balancedB 128 160 balanced_chunk04 m (by omega) (by omega) cnv clv
-    · exact chunk_sound balancedB 160 192 balanced_chunk05 m (by omega) (by omega) cnv clv
-    · exact chunk_sound balancedB 192 224 balanced_chunk06 m (by omega) (by omega) cnv clv
-    · exact chunk_sound balancedB 224 256 balanced_chunk07 m (by omega) (by omega) cnv clv
-    · exact chunk_sound balancedB 256 288 balanced_chunk08 m (by omega) (by omega) cnv clv
-    · exact chunk_sound balancedB 288 320 balanced_chunk09 m (by omega) (by omega) cnv clv
-    · exact chunk_sound balancedB 320 352 balanced_chunk10 m (by omega) (by omega) cnv clv
-    · exact chunk_sound balancedB 352 384 balanced_chunk11 m (by omega) (by omega) cnv clv
-    · exact chunk_sound balancedB 384 416 balanced_chunk12 m (by omega) (by omega) cnv clv
-    · exact chunk_sound balancedB 416 448 balanced_chunk13 m (by omega) (by omega) cnv clv
-    · exact chunk_sound balancedB 448 480 balanced_chunk14 m (by omega) (by omega) cnv clv
-    · exact chunk_sound balancedB 480 512 balanced_chunk15 m (by omega) (by omega) cnv clv
+private theorem facts (m : Nat) (hm : m < 512) : Facts m := facts_of (all_checked m hm)
 
-/-- **Suspend restores, Resume re-establishes.** After `Suspend` everything is restored as after
-    `Close`; after `Resume` the mode state equals the one start-up established. -/
-theorem resume_reestablishes (m : Nat) (hm : m < 512) (cnv clv : Bool) : resumeB m cnv clv = true := by
-    rcases (by omega : (0 ≤ m ∧ m < 32) ∨ (32 ≤ m ∧ m < 64) ∨ (64 ≤ m ∧ m < 96) ∨ (96 ≤ m ∧ m < 128) ∨ (128 ≤ m ∧ m < 160) ∨ (160 ≤ m ∧ m < 192) ∨ (192 ≤ m ∧ m < 224) ∨ (224 ≤ m ∧ m < 256) ∨ (256 ≤ m ∧ m < 288) ∨ (288 ≤ m ∧ m < 320) ∨ (320 ≤ m ∧ m < 352) ∨ (352 ≤ m ∧ m < 384) ∨ (384 ≤ m ∧ m < 416) ∨ (416 ≤ m ∧ m < 448) ∨ (448 ≤ m ∧ m < 480) ∨ (480 ≤ m ∧ m < 512)) with h | h | h | h | h | h | h | h | h | h | h | h | h | h | h | h
-    · exact chunk_sound resumeB 0 32 resume_chunk00 m (by omega) (by omega) cnv clv
-    · exact chunk_sound resumeB 32 64 resume_chunk01 m (by omega) (by omega) cnv clv
-    · exact chunk_sound resumeB 64 96 resume_chunk02 m (by omega) (by omega) cnv clv
-    · exact chunk_sound resumeB 96 128 resume_chunk03 m (by omega) (by omega) cnv clv
-    · exact chunk_sound resumeB 128 160 resume_chunk04 m (by omega) (by omega) cnv clv
-    · exact chunk_sound resumeB 160 192 resume_chunk05 m (by omega) (by omega) cnv clv
-    · exact chunk_sound resumeB 192 224 resume_chunk06 m (by omega) (by omega) cnv clv
-    · exact chunk_sound resumeB 224 256 resume_chunk07 m (by omega) (by omega) cnv clv
-    · exact chunk_sound resumeB 256 288 resume_chunk08 m (by omega) (by omega) cnv clv
-    · exact chunk_sound resumeB 288 320 resume_chunk09 m (by omega) (by omega) cnv clv
-    · exact chunk_sound resumeB 320 352 resume_chunk10 m (by omega) (by omega) cnv clv
-    · exact chunk_sound resumeB 352 384 resume_chunk11 m (by omega) (by omega) cnv clv
-    · exact chunk_sound resumeB 384 416 resume_chunk12 m (by omega) (by omega) cnv clv
-    · exact chunk_sound resumeB 416 448 resume_chunk13 m (by omega) (by omega) cnv clv
-    · exact chunk_sound resumeB 448 480 resume_chunk14 m (by omega) (by omega) cnv clv
-    · exact chunk_sound resumeB 480 512 resume_chunk15 m (by omega) (by omega) cnv clv
+/-- **Balanced — every session, every value, every exit path.**  For every capability/option
+    assignment `m`, all kitty keyboard flags, every user cursor style, every application id the
+    terminal reports (`SettableId`: any id except the one-character id `?`, which OSC 176 reads as
+    the query), every prior depth `k0` of the kitty keyboard stack: start-up, then ANY list of
+    operations — frames (any renderer output), cursor requests (any position, any style, shown or
+    hidden), `SetAppID` with any id, Suspend, Resume, in any number and order — then shutdown
+    (Close; the signal arm and the panic handler are `Close`, see below) leaves every mode of the
+    property's list at its prior value, the cursor visible, the primary screen active, the pen
+    reset, no hyperlink open, the kitty keyboard stack at its prior depth, keypad numeric, the
+    application id, cursor shape and pointer shape restored and synchronized-update off; and Vaxis is marked closed. -/
+theorem balanced (m : Nat) (hm : m < 512) (kittyFlags userCursorStyle k0 : Nat) (appId : String) (hq : SettableId appId)
+    (ops : List Op) (hok : ∀ op ∈ ops, op.ok) :
+    let e := envV m kittyFlags userCursorStyle appId
+    let t0 := t0V m e k0
+    let s := shutdown e (runOps e (start e t0) ops)
+    restored t0 s.t = true ∧ s.w.closed = true := by
+  intro e t0 s
+  have F := facts m hm
+  have hinv := ops_inv (k0 := k0) F (rfl : e.v = vOf m) hq _ ops hok (start_inv F rfl hq)
+  have := shutdown_restores F (rfl : e.v = vOf m) hq _ hinv
+  exact ⟨this.2, this.1⟩
 
-/-- **A second Close is harmless**: it writes nothing and changes no state. -/
+/-- **Suspend restores, Resume re-establishes** — at every point of every session: while
+    suspended everything is restored exactly as after Close; while running (in particular after
+    every Resume) the mode table, screen selector, kitty keyboard stack depth and keypad mode are
+    exactly the ones start-up established. -/
+theorem resume_reestablishes (m : Nat) (hm : m < 512) (kittyFlags userCursorStyle k0 : Nat) (appId : String) (hq : SettableId appId)
+    (ops : List Op) (hok : ∀ op ∈ ops, op.ok) :
+    let e := envV m kittyFlags userCursorStyle appId
+    let t0 := t0V m e k0
+    let s := runOps e (start e t0) ops
+    (s.w.suspended = true → restored t0 s.t = true) ∧
+    (s.w.suspended = false → s.t.modes = (start e t0).t.modes ∧ s.t.alt = (start e t0).t.alt ∧
+        s.t.kitty = (start e t0).t.kitty ∧ s.t.keypadApp = (start e t0).t.keypadApp) := by
+  intro e t0 s
+  have F := facts m hm
+  have hinv := ops_inv (k0 := k0) F (rfl : e.v = vOf m) hq _ ops hok (start_inv F rfl hq)
+  exact ⟨suspended_restored (e := e) F rfl hq _ hinv, running_core (e := e) F rfl hq _ hinv⟩
+
+/-- **A second Close is harmless**: for every state and all values it writes nothing and buffers nothing. -/
 theorem close_idempotent (e : Env) (w : WSt) : (closeW e true w).wire = w.wire ∧ (closeW e true w).buf = w.buf := by
-  simp [closeW, interp, Gen.Modes.close, evalG]
+  have h : interpS e.v 64 Gen.Modes.close (absW { w with closed := w.closed || true }) = absW { w with closed := w.closed || true } :=
+    close_closed _ _ (by simp [absW])
+  simp only [closeW, interp, h]
+  exact concW_absW e _
 
-/-- **Close while suspended** (Suspend, then Close without Resume) writes nothing more: Suspend's
-    early return on `vx.suspended` is taken, so the terminal stays restored (and the call does
-    not wait for a parser that is already stopped). -/
-theorem close_while_suspended_writes_nothing (m : Nat) (hm : m < 4) :
-    let e := envOf (m * 170)
-    let w := suspendW e { (startupW e) with wire := [] }
-    (closeW e false { w with wire := [] }).wire = [] := by
-  rcases (by omega : m = 0 ∨ m = 1 ∨ m = 2 ∨ m = 3) with rfl | rfl | rfl | rfl <;> decide +kernel
+/-- …in particular after the shutdown of any session: Close again changes nothing on the terminal. -/
+theorem close_twice (m : Nat) (hm : m < 512) (kittyFlags userCursorStyle k0 : Nat) (appId : String) (hq : SettableId appId)
+    (ops : List Op) (hok : ∀ op ∈ ops, op.ok) :
+    let e := envV m kittyFlags userCursorStyle appId
+    let s := shutdown e (runOps e (start e (t0V m e k0)) ops)
+    (shutdown e s).t = s.t := by
+  intro e s
+  have hc := (balanced m hm kittyFlags userCursorStyle k0 appId hq ops hok).2
+  have h : interpS e.v 64 Gen.Modes.close (absW { clearWire s.w with closed := (clearWire s.w).closed || false }) =
+      absW { clearWire s.w with closed := (clearWire s.w).closed || false } :=
+    close_closed _ _ (by simpa [absW, clearWire] using hc)
+  simp only [shutdown, closeW, interp, h]
+  rw [(concW_absW e _).1]
+  simp [clearWire, run]
+
+/-- **Close while suspended** (Suspend, then Close without Resume — at any point of any session)
+    writes nothing: Suspend's early return on `vx.suspended` is taken, so the terminal stays
+    restored (and the call does not wait for a parser that is already stopped). -/
+theorem close_while_suspended_writes_nothing (m : Nat) (hm : m < 512) (kittyFlags userCursorStyle k0 : Nat) (appId : String)
+    (hq : SettableId appId) (ops : List Op) (hok : ∀ op ∈ ops, op.ok) :
+    let e := envV m kittyFlags userCursorStyle appId
+    let s := runOps e (start e (t0V m e k0)) ops
+    s.w.suspended = true → (shutdown e s).w.wire = [] := by
+  intro e s
+  have F := facts m hm
+  have hinv := ops_inv (k0 := k0) F (rfl : e.v = vOf m) hq _ ops hok (start_inv F rfl hq)
+  exact shutdown_suspended_silent (e := e) F rfl hq _ hinv
+
+/-! ### The signal path and the panic path (skeleton regenerated from `openTty`) -/
+
+/-- The skeleton of the input goroutine was fully recognised: the deferred handler is the first
+    statement, it is `if err := recover(); err != nil { vx.Close(); panic(err) }`, the select loop has
+    the parser arm, the window-size arm and the kill-signal arm `vx.Close(); return`. -/
+theorem facts_inputLoop :
+    Gen.Modes.inputLoopRecover = [.call .tt "Close", .other .tt "panic(err)"] ∧
+    Gen.Modes.inputLoopSignalArm = [.call .tt "Close", .other .tt "return"] ∧
+    Gen.Modes.inputLoopRecoverGuard = "err := recover(); err != nil" ∧
+    Gen.Modes.inputLoopDeferFirst = true ∧
+    Gen.Modes.inputLoopArms = ["seq := <-parser.Next()", "<-vx.chSigWinSz", "<-vx.chSigKill"] := by
+  decide
+
+/-- **Signal path.** What the kill-signal arm of the input goroutine writes, from every state and
+    for all values, is exactly what `Close` writes (so `balanced` applies to it). -/
+theorem signal_path_is_close (e : Env) (w : WSt) :
+    (interp e 65 Gen.Modes.inputLoopSignalArm w).wire = (closeW e false w).wire ∧
+    (interp e 65 Gen.Modes.inputLoopSignalArm w).buf = (closeW e false w).buf ∧
+    (interp e 65 Gen.Modes.inputLoopSignalArm w).closed = (closeW e false w).closed := by
+  have h : interpS e.v 65 Gen.Modes.inputLoopSignalArm (absW w) = interpS e.v 64 Gen.Modes.close (absW w) :=
+    signal_arm_close e.v _ (absW w) facts_inputLoop.2.1
+  have hw : ({ w with closed := w.closed || false } : WSt) = w := by simp
+  simp only [closeW, interp, h, hw, and_self]
+
+/-- **Panic path.** What the deferred recover handler of the input goroutine writes before it
+    re-panics, from every state and for all values, is exactly what `Close` writes. -/
+theorem panic_path_is_close (e : Env) (w : WSt) :
+    (interp e 65 Gen.Modes.inputLoopRecover w).wire = (closeW e false w).wire ∧
+    (interp e 65 Gen.Modes.inputLoopRecover w).buf = (closeW e false w).buf ∧
+    (interp e 65 Gen.Modes.inputLoopRecover w).closed = (closeW e false w).closed := by
+  have h : interpS e.v 65 Gen.Modes.inputLoopRecover (absW w) = interpS e.v 64 Gen.Modes.close (absW w) :=
+    recover_close e.v _ (absW w) facts_inputLoop.1
+  have hw : ({ w with closed := w.closed || false } : WSt) = w := by simp
+  simp only [closeW, interp, h, hw, and_self]
+
+/-! ### The direct token mappings agree with the lexer -/
 
 /-- The printed forms of DECSET/DECRST lex to exactly the tokens the lifecycle model maps them to
     (checked for every mode number that occurs in vaxis.go). -/
@@ -107,6 +184,43 @@ theorem decset_lexes :
     ∀ n ∈ [1, 25, 1002, 1003, 1004, 1006, 1049, 2004, 2026, 2027, 2031, 2048, 8452],
       toksOf (wBytes default (.decset n)) = [.decset n] ∧ toksOf (wBytes default (.decrst n)) = [.decrst n] := by
   decide +kernel
+
+/-- `CSI > flags u` as printed by `tparm(kittyKBEnable, flags)` lexes to the token the model maps it
+    to — for every value of the 5-bit progressive-enhancement mask (all flags the kitty keyboard protocol defines). -/
+theorem kittyPush_lexes :
+    ∀ n ∈ List.range 32,
+      toksOf (wBytes { v := fun _ => false, kittyFlags := n } (.tparm "kittyKBEnable" "\x1b[>%du" ["vx.kittyFlags"])) =
+        inst { v := fun _ => false, kittyFlags := n } default default .kittyPush := by
+  decide +kernel
+
+/-- `CSI n SP q` lexes to the model's token for every style `vaxis.go` can store in
+    `userCursorStyle` (the DECRQSS reply is only accepted for the digits 0–6). -/
+theorem userStyle_lexes :
+    ∀ n ∈ List.range 7,
+      toksOf (wBytes { v := fun _ => false, userCursorStyle := n } (.tparm "cursorStyleSet" "\x1b[%d q" ["int(vx.userCursorStyle)"])) =
+        inst { v := fun _ => false, userCursorStyle := n } default default .userStyle := by
+  decide +kernel
+
+/-- `OSC 176 ; id ST` lexes to the model's token (sample of ids, including the empty id, ids with
+    `;`, spaces and non-ASCII; real ids by the correspondence run). -/
+theorem appIdRestore_lexes :
+    ∀ id ∈ ["", "app", "foot", "org.example.App", "a;b", "x y", "é", "?"],
+      toksOf (wBytes { v := fun _ => false, appId := id } (.tparm "setAppID" "\x1b]176;%s\x1b\\" ["vx.appIDLast"])) =
+        inst { v := fun _ => false, appId := id } default default .appIdRestore := by
+  decide +kernel
+
+/-- The recognised run-time writes of the current source are recognised (no `opaqueW` item, no
+    value-dependent cursor-only flush) — otherwise `balanced` could not have been proved; stated
+    separately so that a regression names the cause. -/
+theorem no_opaque_items :
+    ∀ m ∈ [0, 255, 511], ∀ it ∈ (startupS (vOf m)).wire ++ (interpS (vOf m) 64 Gen.Modes.suspend (Wrun true true)).wire,
+      (match it with | .opaqueW _ => false | .cursorOnly _ => false | _ => true) = true := by
+  decide +kernel
+
+/-- The application id `?` cannot be restored through OSC 176 (the sequence is the query): the
+    hypothesis `SettableId` of `balanced` excludes exactly such ids. -/
+theorem unsettable_id_is_query : ¬ SettableId "?" := by
+  unfold SettableId; decide +kernel
 
 /-! ### Frames do not touch the lifecycle state -/
 
@@ -181,8 +295,22 @@ theorem frame_keeps_core (cw : String → Nat) (f : Frame) (t : MTerm) :
 
 end frames
 
--- Non-vacuity: assignment 0x1ff (everything advertised, mouse disabled) really enables things.
+-- Non-vacuity: assignment 0x1ff (everything advertised, mouse disabled) really enables things, for the
+-- representative values as well as others; ordinary ids are settable; a session with frames,
+-- cursor requests, SetAppID and Suspend/Resume meets the hypotheses of `balanced`.
 example : (run (t0Of (envOf 255)) (startupW (envOf 255)).wire).kitty = 1 := by decide +kernel
 example : (run (t0Of (envOf 255)) (startupW (envOf 255)).wire).alt = true := by decide +kernel
+example : (established 255).kitty = 1 ∧ (established 255).alt = true ∧ (established 255).keypadApp = true := by decide +kernel
+example : SettableId "app" ∧ SettableId "" ∧ SettableId "??" := by
+  refine ⟨?_, ?_, ?_⟩ <;> (unfold SettableId; decide +kernel)
+example : ∀ op ∈ [Op.frame [.decrst 25, .sgr [[1]], .text "78", .osc8 "" "68", .text "79", .osc8 "" "", .sgr [], .decset 25],
+    Op.cursor { row := 3, col := 4, style := 5, visible := true } {}, Op.setAppId "other", Op.suspend, Op.resume], op.ok := by
+  intro op hop
+  simp only [List.mem_cons, List.mem_nil_iff, or_false] at hop
+  rcases hop with rfl | rfl | rfl | rfl | rfl
+  · refine ⟨by decide, ?_⟩
+    intro t _
+    simp [run, step, decMode]
+  all_goals trivial
 
 end VaxisModel.Props.C04
